@@ -606,7 +606,8 @@ class Unit:
         contract = sub.get('contract', '')
         if contract:
             rules.add('E4')
-        if re.search(r'^\s*requires\b', contract, re.M):
+        if re.search(r'^\s*requires\b', contract, re.M) and not sub.get('external_body'):
+            # (an external_body function is not checked against its body: no canary possible)
             self.canary_targets.append(path)
             if self.canary == path:
                 parts = re.split(r'^(\s*)(requires|ensures|decreases|recommends)\b', contract, flags=re.M)
